@@ -245,6 +245,24 @@ func init() {
 	}
 	for _, o := range []OptSet{OptNone, OptSetO, OptMset, OptKeys1} {
 		o := o
+		nb := len(bulky)
+		p.Strata = append(p.Strata, mon.Stratum{
+			Name:       "exh-bulky/" + o.Name,
+			N:          n(nb * nb * 3),
+			Exhaustive: always,
+			Run: func(c *mon.Ctx, i int) {
+				// long strings differing only in the middle; bags whose counts differ by multiples of 256
+				how := i % 3
+				x, y := bulky[(i/3)/nb], bulky[(i/3)%nb]
+				a, _ := wrapText(x, how)
+				b, _ := wrapText(y, how)
+				c.Feature("bulky_pairs")
+				c04Judge(c, a, b, o, "bulky")
+			},
+		})
+	}
+	for _, o := range []OptSet{OptNone, OptSetO, OptMset, OptKeys1} {
+		o := o
 		nAtoms := len(confusable)
 		p.Strata = append(p.Strata, mon.Stratum{
 			Name:       "exh-confusable/" + o.Name,
